@@ -212,7 +212,7 @@ impl<'d> BuildCtx<'d> {
         for op in ops {
             nth += 1;
             let chain = nth % 3 == 1;
-            if nth % 4 == 2 {
+            if nth % 4 == 2 && ops.len() <= 3000 {
                 // a builder may be printed at any time while it is being filled (whatever
                 // formatting remembers must not outlive the next registration)
                 let _ = catch_unwind(AssertUnwindSafe(|| format!("{:?}", b)));
